@@ -3641,7 +3641,9 @@ void simplecpp::preprocess(simplecpp::TokenList &output, const simplecpp::TokenL
                 }
 
                 bool conditionIsTrue;
-                if (ifstates.top() == AlwaysFalse || (ifstates.top() == ElseIsTrue && rawtok->str() != ELIF)) {
+                if (ifstates.top() == AlwaysFalse || (ifstates.top() == ElseIsTrue && rawtok->str() != ELIF) ||
+                    (ifstates.top() == True && rawtok->str() == ELIF)) {
+                    // an earlier group of this if-section was taken: the condition is not evaluated (C17 6.10.1p6)
                     conditionIsTrue = false;
                 }
                 else if (rawtok->str() == IFDEF) {
